@@ -100,7 +100,7 @@ def _validate_trace(fam_cfg, pw, alphabet_json, lines, name):
                         "alphabet.json": alphabet_json, "trace.ndjson": "".join(lines)})
     if r.error:
         raise vlib.MachineryError("TLC error during trace validation (%s): %s" % (name, r.error[:1500]))
-    mism = [ln for ln in r.out.split("\n") if "MISMATCH" in ln]
+    mism = [re.sub(r'\s+', ' ', m.group(0)) for m in re.finditer(r'<<\s*"[CG]?MISMATCH[^>]*>>', r.out)]
     complete = (r.depth - 1 == len(lines))
     return dict(events=len(lines), consumed=max(0, r.depth - 1), mismatches=mism, complete=complete, generated=r.generated, wall=r.wall)
 
@@ -187,16 +187,18 @@ def run_shared(tier, seed):
         pw = variant(binary)
         key = _hash_inputs(binary, tier, seed, json.dumps(pw, sort_keys=True))
         cp = os.path.join(WD, "cache-%s.json" % key)
-        if os.path.exists(cp) and time.time() - os.path.getmtime(cp) < 3600 and not os.environ.get("VERIF_NOCACHE"):
+        nocache = os.environ.get("VERIF_NOCACHE") or os.environ.get("VERIF_MSGVAL_FAMILIES")
+        if os.path.exists(cp) and time.time() - os.path.getmtime(cp) < 3600 and not nocache:
             log("[msgval] reusing the shared run %s (same driver binary, spec, tier, seed)" % os.path.basename(cp))
             return json.load(open(cp))
         t0 = time.time()
         result = _run(tier, seed, binary, pw)
         result["wall_s"] = round(time.time() - t0, 1)
-        tmp = cp + ".tmp"
-        with open(tmp, "w") as f:
-            json.dump(result, f)
-        os.replace(tmp, cp)
+        if not os.environ.get("VERIF_MSGVAL_FAMILIES"):
+            tmp = cp + ".tmp"
+            with open(tmp, "w") as f:
+                json.dump(result, f)
+            os.replace(tmp, cp)
         for old in glob.glob(os.path.join(WD, "cache-*.json")):
             if old != cp and time.time() - os.path.getmtime(old) > 7200:
                 os.remove(old)
@@ -211,7 +213,9 @@ def _run(tier, seed, binary, pw):
                traces=0, evaluations=0, nontrivial=0, attack_traces=0, notes=[])
     pool = ThreadPoolExecutor(8)
     fam_pool = ThreadPoolExecutor(3 if tier == "quick" else 2)
-    fam_futs = [fam_pool.submit(_family, fam, tier, seed, pw, binary, pool) for fam in FAMILIES]
+    only = os.environ.get("VERIF_MSGVAL_FAMILIES")  # development aid: restrict the run to some families (never cached)
+    families = [f for f in FAMILIES if not only or f["name"] in only.split(",")]
+    fam_futs = [fam_pool.submit(_family, fam, tier, seed, pw, binary, pool) for fam in families]
     # attack traces (weakened spec), graph cover and simulation run while the families are busy
     attack_cfgs = sorted(os.path.basename(f) for f in glob.glob(os.path.join(vlib.SPEC, "MsgValidation_attack_*.cfg")))
     if not pw["partial_window"]:
@@ -304,7 +308,7 @@ def _run(tier, seed, binary, pw):
     if tier == "thorough":
         racebin = vlib.go_build("msgval", race=True)
         conc = []
-        for fam in FAMILIES:
+        for fam in families:
             if not fam["conc"]:
                 continue
             wdc = os.path.join(WD, fam["name"])
